@@ -13,6 +13,13 @@ BIG = "/c06-big4m.bin"
 BIGREQ = ("GET %s HTTP/1.1\r\nHost: x\r\n\r\n" % BIG).encode()
 
 
+def on_record(c, limit=6):
+    """enough unknown violations are on record: the remaining histories would only wait out more watchdogs (each
+    unanswered probe costs 15 s) without changing the verdict"""
+    n = sum(v["count"] for sig, v in c.violations.items() if sig not in c.known)
+    return n >= limit
+
+
 def corpus():
     out = []
     for f in sorted(glob.glob(os.path.join(build.VERIF, "corpus", "crashers", "*.req"))):
@@ -365,6 +372,12 @@ def run(c):
         servers = {}
         try:
             for n, kinds in histories:
+                if on_record(c):
+                    c.count("histories_skipped_after_enough_violations_were_on_record")
+                    for k in kinds:
+                        c.seen("fault kind " + k)
+                    c.seen("N = %d" % n)
+                    continue
                 srv = servers.get(n)
                 if srv is None or not srv.alive():
                     if srv is not None:
@@ -412,6 +425,9 @@ def descriptor_exhaustion(c, t, rng, probe_file):
     EMFILE for a while; once the peers have gone the server must serve again, with all its workers"""
     c.need("descriptor exhaustion history")
     for n in ((2, 4) if c.quick else (1, 2, 4, 8)):
+        if on_record(c):
+            c.seen("descriptor exhaustion history")
+            break
         srv = server.Server(t.root, threads=n, trace=True, nofile=40)
         try:
             if not srv.started:
@@ -466,6 +482,11 @@ def mixed_histories(c, t, rng, valid, crashers, mutants, probe_file):
     servers = {}
     try:
         for n, kinds in histories:
+            if on_record(c):
+                c.count("histories_skipped_after_enough_violations_were_on_record")
+                for k in kinds:
+                    c.seen("fault kind " + k)
+                continue
             srv = servers.get(n)
             if srv is None or not srv.alive():
                 if srv is not None:
